@@ -26,8 +26,10 @@ import (
 	ucomposed "github.com/crossplane/crossplane-runtime/pkg/resource/unstructured/composed"
 	ucomposite "github.com/crossplane/crossplane-runtime/pkg/resource/unstructured/composite"
 
+	v1 "github.com/crossplane/crossplane/apis/apiextensions/v1"
 	"github.com/crossplane/crossplane/internal/controller/apiextensions/claim"
 	"github.com/crossplane/crossplane/internal/controller/apiextensions/composite"
+	"sigs.k8s.io/controller-runtime/pkg/reconcile"
 )
 
 type c09KV struct {
@@ -118,6 +120,9 @@ func c09Seed(st *Store, ns, name string, s c09Secret, ownerUID string) {
 		sec.OwnerReferences = []metav1.OwnerReference{{APIVersion: "example.org/v1", Kind: "XThing", Name: "xr", UID: c09XRUID, Controller: &tr}}
 	case "other":
 		sec.OwnerReferences = []metav1.OwnerReference{{APIVersion: "example.org/v1", Kind: "Else", Name: "e", UID: c09OtherUID, Controller: &tr}}
+	case "xrPlain":
+		// the XR is listed as a plain (non-controller) owner: the secret has NO controller
+		sec.OwnerReferences = []metav1.OwnerReference{{APIVersion: "example.org/v1", Kind: "XThing", Name: "xr", UID: c09XRUID}}
 	}
 	st.Seed(sec)
 }
@@ -130,6 +135,11 @@ func c09View(st *Store, ns, name, ownerUID string) c09Secret {
 	sec := &corev1.Secret{}
 	_ = runtime.DefaultUnstructuredConverter.FromUnstructured(u.Object, sec)
 	v := c09Secret{Present: true, Conn: sec.Type == resource.SecretTypeConnection, Ctrl: "none", Data: c09KVs(sec.Data)}
+	for _, o := range sec.OwnerReferences {
+		if string(o.UID) == c09XRUID && (o.Controller == nil || !*o.Controller) {
+			v.Ctrl = "xrPlain"
+		}
+	}
 	if c := metav1.GetControllerOf(sec); c != nil {
 		switch string(c.UID) {
 		case ownerUID:
@@ -210,7 +220,7 @@ func c09Run(s c09Scn) (c09Obs, []Mon) {
 					mon("C09:key-not-allowed", fmt.Sprintf("secret key %q=%q is neither pre-existing nor an allowed key produced by the composition", kv.K, kv.V))
 				}
 			}
-			foreign := s.Dest.Present && (s.Dest.Ctrl == "other" || s.Dest.Ctrl == "xr" || (s.Dest.Ctrl == "none" && !s.Dest.Conn))
+			foreign := s.Dest.Present && (s.Dest.Ctrl == "other" || s.Dest.Ctrl == "xr" || ((s.Dest.Ctrl == "none" || s.Dest.Ctrl == "xrPlain") && !s.Dest.Conn))
 			if foreign && (ch || w > 0) {
 				mon("C09:wrote-foreign-secret", "write addressed to a secret controlled by someone else / uncontrolled non-connection secret")
 			}
@@ -272,7 +282,7 @@ func c09Run(s c09Scn) (c09Obs, []Mon) {
 			if i > 0 && (w > 0 || p) && obs.Errs[i-1] == false && obs.Published[i-1] {
 				mon("C09:rewrote-identical", "second propagation of identical data wrote again")
 			}
-			foreign := s.Dest.Present && (s.Dest.Ctrl == "other" || s.Dest.Ctrl == "xr" || (s.Dest.Ctrl == "none" && !s.Dest.Conn))
+			foreign := s.Dest.Present && (s.Dest.Ctrl == "other" || s.Dest.Ctrl == "xr" || ((s.Dest.Ctrl == "none" || s.Dest.Ctrl == "xrPlain") && !s.Dest.Conn))
 			if foreign && (ch || w > 0) {
 				mon("C09:wrote-foreign-secret", "write addressed to a secret controlled by someone else / uncontrolled non-connection secret")
 			}
@@ -334,7 +344,7 @@ func c09ViewFromSnapshot(snap map[string]string, _ *runtime.Scheme) []c09KV {
 }
 
 func c09GenSecret(r *Rng, keys []string) c09Secret {
-	s := c09Secret{Present: r.Chance(2, 3), Conn: r.Chance(2, 3), Ctrl: Pick(r, []string{"none", "owner", "owner", "xr", "other"}), Data: []c09KV{}}
+	s := c09Secret{Present: r.Chance(2, 3), Conn: r.Chance(2, 3), Ctrl: Pick(r, []string{"none", "owner", "owner", "xr", "other", "xrPlain"}), Data: []c09KV{}}
 	if !s.Present {
 		return c09Secret{Ctrl: "none", Data: []c09KV{}}
 	}
@@ -410,6 +420,12 @@ func c09Gen(r *Rng) c09Scn {
 func init() {
 	Register("C09", func(c *Ctx) {
 		for _, raw := range c.Corpus {
+			var ls c09LeakScn
+			if json.Unmarshal(raw, &ls) == nil && ls.Op == "ptflow" {
+				lo, lm := c09LeakRun(ls)
+				c.Emit(ls, lo, lm, "corpus")
+				continue
+			}
 			var s c09Scn
 			if json.Unmarshal(raw, &s) == nil && s.Op != "" {
 				obs, mons := c09Run(s)
@@ -417,6 +433,12 @@ func init() {
 			}
 		}
 		for i := 0; i < c.N; i++ {
+			if i%6 == 5 {
+				ls := c09LeakGen(c.Rng)
+				lo, lm := c09LeakRun(ls)
+				c.Emit(ls, lo, lm, fmt.Sprintf("ptflow/ctrl=%s/secret=%v/published=%v", ls.Ctrl, ls.CdSecret, lo.XRSecret.Present))
+				continue
+			}
 			s := c09Gen(c.Rng)
 			obs, mons := c09Run(s)
 			cls := s.Op
@@ -431,4 +453,103 @@ func init() {
 			c.Emit(s, obs, mons, cls)
 		}
 	})
+}
+
+// ---- provenance through the P&T composer ("only values produced by the composition for this XR") ----
+
+type c09LeakScn struct {
+	Op       string  `json:"op"`       // "ptflow"
+	Ctrl     string  `json:"ctrl"`     // controller of the referenced composed resource: "xr" | "other" | "none"
+	CdSecret bool    `json:"cdSecret"` // the composed resource has a connection secret
+	Secret   []c09KV `json:"secret"`   // its data
+	Key      string  `json:"key"`      // connection detail: FromConnectionSecretKey <key> as <key>
+	Rounds   int     `json:"rounds"`
+}
+
+type c09LeakObs struct {
+	XRSecret c09Secret `json:"xrSecret"`
+	Synced   bool      `json:"synced"`
+}
+
+func c09LeakRun(s c09LeakScn) (c09LeakObs, []Mon) {
+	sch := runtime.NewScheme()
+	_ = corev1.AddToScheme(sch)
+	st := NewStore(sch)
+	var mons []Mon
+	xr := ucomposite.New(ucomposite.WithGroupVersionKind(xwXRGVK))
+	xr.SetName(xwXRName)
+	xr.SetLabels(map[string]string{"crossplane.io/composite": xwXRName})
+	xr.SetFinalizers([]string{"composite.apiextensions.crossplane.io"})
+	xr.SetCompositionReference(&corev1.ObjectReference{Name: "comp"})
+	xr.SetWriteConnectionSecretToReference(&xpv1.SecretReference{Namespace: "xrns", Name: "xr-conn"})
+	xr.SetResourceReferences([]corev1.ObjectReference{{APIVersion: xwGroup + "/v1", Kind: "KA", Name: "cd1"}})
+	st.Seed(xr)
+	xrUID := st.Peek(xwXRGVK.GroupKind(), "", xwXRName).GetUID()
+	cd := ucomposed.New()
+	cd.SetAPIVersion(xwGroup + "/v1")
+	cd.SetKind("KA")
+	cd.SetName("cd1")
+	cd.SetAnnotations(map[string]string{xwAnnot: "a"})
+	tr := true
+	switch s.Ctrl {
+	case "xr":
+		cd.SetOwnerReferences([]metav1.OwnerReference{{APIVersion: xwGroup + "/v1", Kind: xwXRGVK.Kind, Name: xwXRName, UID: xrUID, Controller: &tr, BlockOwnerDeletion: &tr}})
+	case "other":
+		cd.SetOwnerReferences([]metav1.OwnerReference{{APIVersion: xwGroup + "/v1", Kind: xwXRGVK.Kind, Name: "victim-xr", UID: xwForeignUID, Controller: &tr, BlockOwnerDeletion: &tr}})
+	}
+	if s.CdSecret {
+		cd.SetWriteConnectionSecretToReference(&xpv1.SecretReference{Namespace: "victim", Name: "vsec"})
+		st.Seed(&corev1.Secret{ObjectMeta: metav1.ObjectMeta{Namespace: "victim", Name: "vsec"}, Type: resource.SecretTypeConnection, Data: c09Map(s.Secret)})
+	}
+	st.Seed(cd)
+	name := "a"
+	base, _ := json.Marshal(map[string]any{"apiVersion": xwGroup + "/v1", "kind": "KA", "spec": map[string]any{"content": 1}})
+	key := s.Key
+	tp := v1.ConnectionDetailTypeFromConnectionSecretKey
+	rev := &v1.CompositionRevision{}
+	mode := v1.CompositionModeResources
+	rev.Spec.Mode = &mode
+	rev.Spec.Resources = []v1.ComposedTemplate{{Name: &name, Base: runtime.RawExtension{Raw: base},
+		ConnectionDetails: []v1.ConnectionDetail{{Name: &key, Type: &tp, FromConnectionSecretKey: &key}},
+		ReadinessChecks:   []v1.ReadinessCheck{{Type: v1.ReadinessCheckTypeNone}}}}
+	r := composite.NewReconciler(st, st, resource.CompositeKind(xwXRGVK),
+		composite.WithComposer(composite.NewPTComposer(st, st)),
+		composite.WithCompositionSelector(composite.CompositionSelectorFn(func(context.Context, resource.Composite) error { return nil })),
+		composite.WithCompositionRevisionFetcher(composite.CompositionRevisionFetcherFn(func(context.Context, resource.Composite) (*v1.CompositionRevision, error) { return rev, nil })),
+		composite.WithCompositionRevisionValidator(composite.CompositionRevisionValidatorFn(func(*v1.CompositionRevision) error { return nil })),
+		composite.WithConfigurator(composite.ConfiguratorFn(func(context.Context, resource.Composite, *v1.CompositionRevision) error { return nil })),
+	)
+	for i := 0; i < s.Rounds; i++ {
+		if p := Guard(func() {
+			_, _ = r.Reconcile(context.Background(), reconcile.Request{NamespacedName: types.NamespacedName{Name: xwXRName}})
+		}); p != "" {
+			mons = append(mons, Mon{Sig: "C09:panic", Why: p})
+		}
+	}
+	obs := c09LeakObs{XRSecret: c09View(st, "xrns", "xr-conn", string(xrUID))}
+	got := ucomposite.New()
+	got.SetUnstructuredContent(st.Peek(xwXRGVK.GroupKind(), "", xwXRName).Object)
+	for _, c := range got.GetConditions() {
+		if c.Type == "Synced" && c.Status == corev1.ConditionTrue {
+			obs.Synced = true
+		}
+	}
+	// direct monitor: values of a resource the XR does not control never reach the XR's secret
+	if s.Ctrl == "other" && len(obs.XRSecret.Data) > 0 {
+		mons = append(mons, Mon{Sig: "C09:foreign-details-published", Why: fmt.Sprintf("the XR's connection secret holds %v taken from the connection secret of a composed resource controlled by another XR", obs.XRSecret.Data)})
+	}
+	if s.Ctrl == "other" && obs.Synced {
+		mons = append(mons, Mon{Sig: "C09:foreign-resource-reported-synced", Why: "a composed resource controlled by another owner was reported as successfully applied"})
+	}
+	return obs, mons
+}
+
+func c09LeakGen(r *Rng) c09LeakScn {
+	s := c09LeakScn{Op: "ptflow", Ctrl: Pick(r, []string{"xr", "other", "other", "none"}), CdSecret: r.Chance(4, 5), Secret: []c09KV{}, Key: Pick(r, []string{"password", "user"}), Rounds: r.Range(1, 2)}
+	for _, k := range []string{"password", "user"} {
+		if r.Chance(3, 4) {
+			s.Secret = append(s.Secret, c09KV{K: k, V: Pick(r, []string{"hunter2", "root"})})
+		}
+	}
+	return s
 }
